@@ -58,6 +58,9 @@ def materialise(g):
 _COMPILED = {}
 
 
+_TIMEOUTS = [0]
+
+
 def outcome(jp, env, q, doc, nondet, cap=400):
     # one compiled query per (environment, text), re-applied to every later document: a traversal
     # abandoned by an earlier JSONPathRecursionError must leave nothing behind
@@ -76,12 +79,15 @@ def outcome(jp, env, q, doc, nondet, cap=400):
             except Exception as err:  # noqa: BLE001
                 return ("escaped", type(err).__name__)
 
-        timed_out, res = impl.with_timeout(20.0, go)
+        # the first two evaluations that do not finish get 20 s each, later ones 3 s: the check itself stays bounded
+        timed_out, res = impl.with_timeout(20.0 if _TIMEOUTS[0] < 2 else 3.0, go)
+        if timed_out:
+            _TIMEOUTS[0] += 1
         return ("timeout", "") if timed_out else res
 
     if not nondet:
         return {one()}
-    results, _complete, _runs = chooser.explore(jp, one, cap=cap)
+    results, _complete, _runs = chooser.explore(jp, one, cap=cap, stop=lambda r: r[0] == "timeout")
     return set(results)
 
 
@@ -200,6 +206,10 @@ def run(chk: core.Check, tier: str, seed: int) -> None:
     for (gkey, limit, mode), g in order:
         doc = materialise(g)
         env = envs.setdefault((limit, mode), probes.make_env(jp, [], [], nondeterministic=(mode == "rnd"), max_depth=limit))
+        if _TIMEOUTS[0] >= 6:
+            # evaluations that do not finish are violations already recorded; the check itself must stay bounded
+            chk.notes["stopped_early"] = "six evaluations did not finish within the time limit: the remaining generated cases were skipped"
+            break
         for q in (QUERIES if tier != "quick" else QUERIES[:2] + [rng.choice(QUERIES[2:])]):
             got = outcome(jp, env, q, doc, mode == "rnd")
             chk.evaluations += 1
@@ -252,7 +262,8 @@ def run(chk: core.Check, tier: str, seed: int) -> None:
                         else:
                             c = env.compile(q)
                         try:
-                            timed_out, nodes = impl.with_timeout(20.0, c.find, doc)
+                            timed_out, nodes = impl.with_timeout(20.0 if _TIMEOUTS[0] < 8 else 2.0, c.find, doc)
+                            _TIMEOUTS[0] += 1 if timed_out else 0
                             rec.update({"out": "timeout" if timed_out else "ok", "cls": "",
                                         "locs": [] if timed_out else [core.enc_loc(n.location) for n in nodes]})
                         except Exception as err:  # noqa: BLE001
